@@ -272,15 +272,17 @@ Definition p_none : vec -> vec -> vec := fun _ _ => [].
 (* ARDKernelUnconstrained: gradient -= coeff * kxy * gammas * sqr(x - z)   (parameters log gamma_i) *)
 Definition p_ard (gs : vec) : vec -> vec -> vec := fun x z =>
   vscale (opp (k_ard gs x z)) (zipw mul gs (zipw (fun a b => mul (sub a b) (sub a b)) x z)).
-(* NormalizedKernel::weightedInputDerivative: weights = c / sqrt(kxx*kyy); base gradient with these weights;
+(* NormalizedKernel::weightedInputDerivative: weights = c / outer_prod(sqrt(kxx),sqrt(kyy)) (since /repo commit 65eec74d; before,
+   c / sqrt(outer_prod(kxx,kyy)), whose product overflows / underflows in floating point although the factors, the normalised
+   value and the gradient are representable - found by the magnitude stream of tools/c05.py); base gradient with these weights;
    row i -= (sum_j weights_ij * kxy_ij / kxx_i) * base gradient of k(x_i,x_i) w.r.t. its first argument *)
 Definition g_norm (k : vec -> vec -> A) (g : vec -> vec -> vec) : vec -> vec -> vec := fun x z =>
-  let w := div one (sqrtA (mul (k x x) (k z z))) in
+  let w := div one (mul (sqrtA (k x x)) (sqrtA (k z z))) in
   vadd (vscale w (g x z)) (vscale (opp (div (mul w (k x z)) (k x x))) (g x x)).
 (* NormalizedKernel::weightedParameterDerivative: same weights; minus wx_i = sum_j weights*kxy/(2 kxx_i) times the base
    parameter gradient at (x_i,x_i), minus wy_j = sum_i weights*kxy/(2 kyy_j) times the one at (z_j,z_j) *)
 Definition p_norm (k : vec -> vec -> A) (p : vec -> vec -> vec) : vec -> vec -> vec := fun x z =>
-  let w := div one (sqrtA (mul (k x x) (k z z))) in
+  let w := div one (mul (sqrtA (k x x)) (sqrtA (k z z))) in
   vadd (vadd (vscale w (p x z))
              (vscale (opp (div (mul w (k x z)) (mul two (k x x)))) (p x x)))
        (vscale (opp (div (mul w (k x z)) (mul two (k z z)))) (p z z)).
